@@ -62,7 +62,7 @@ def run(rep, ctx, tier):
         rep.add("R5", "sonic_kzg10.trim:anchor", False, "SonicKZG10::trim not found (fail closed)", None)
     else:
         R5.check_row(rep, ctx, "R5", "sonic_kzg10.trim", b, T.SCHEMES["sonic_kzg10"]["adt"], ["UnsupportedDegreeBound"],
-                     [T.ROLES["trim"]["enforced_degree_bounds"], T.ROLES["trim"]["supported_degree"]])
+                     [[T.ROLES["trim"]["enforced_degree_bounds"]], [T.ROLES["trim"]["supported_degree"]]])
     # R1f: the shift of the degree-bound keys is taken relative to the *maximum* degree of the parameters (the SRS has no
     # higher powers to shift into); the structural part: max_degree flows (data) into every shift-related key field
     for sk, fields in SHIFT_FIELDS.items():
